@@ -75,7 +75,9 @@ pub fn classify(compressed: bool, frame: &[u8]) -> String {
         Some((Ok(Some(p)), 0)) => cls_token(&p),
         Some((Ok(Some(_)), _)) => "F".into(),
         Some((Ok(None), _)) => "F".into(),
-        Some((Err(insim::Error::BinRw(_)), 0)) => "E".into(),
+        // an undecodable body is class E whatever the decoder did to the buffer: how much it removes is C04's / C05's
+        // subject and must not decide which frames the oracle looks at
+        Some((Err(insim::Error::BinRw(_)), _)) => "E".into(),
         Some((Err(_), _)) => "F".into(),
     }
 }
